@@ -79,7 +79,7 @@ StepsOf(i, o) ==
 RECURSIVE Translate(_, _)
 Translate(ops, i) == IF i > Len(ops) THEN <<>> ELSE StepsOf(i, ops[i]) \o Translate(ops, i + 1)
 
-Scenario == LET ops == Expand(hist, TRUE, FALSE, FALSE) IN [ops |-> ops, steps |-> Translate(ops, 1)]
+Scenario == LET ops == Expand(hist, ~ Cold, FALSE, FALSE) IN [cold |-> Cold, ops |-> ops, steps |-> Translate(ops, 1)]
 Emit == (n = MaxSteps) => PrintT(<<"DURGEN", ToJson(Scenario)>>)
 
 \* generator bias: no kill straight after a start (startkill is that case), no two crashes during one recovery
@@ -98,7 +98,7 @@ GenNext ==
      \/ \E k \in {"yearly", "secondly"} : CreateS(k)
      \/ DeleteS \/ Acquire \/ Release \/ CreateShort
      \/ (short = "pending" \/ (sched = "secondly" /\ ~ fired)) /\ Wait
-     \/ Kill \/ Term \/ Start \/ StartKill(Pick(<<0, 15, 60>>))
+     \/ Kill \/ Term \/ Start \/ StartKill(Pick(IF Cold /\ n < 3 THEN <<12, 25, 40, 8, 18, 32>> ELSE <<0, 15, 60>>))
      \/ LET B == {p \in Promises : ps[p] \in {"none", "pending"}} IN Burst(B, Pick(<<0, 2, 6, 1>>), IF n % 2 = 0 THEN 24 ELSE 0, 0) \/ Burst(B, 0, 40, 1)
   /\ Filter(hist')
 GenSpec == Init /\ [][GenNext]_vars
